@@ -343,7 +343,19 @@ def run(ctx):
 
     # Study API
     study = p.cls(STUDY)
-    spol = ClientPolicy(in_study_class=True)
+    # fields the Study object caches from storage getters (self._directions = storage.get_study_directions(..)) are as shared as the getter's result
+    spol = ClientPolicy(fields=client_field_levels(ctx, study, True), in_study_class=True)
+
+    def _immutable_elements(f_):
+        """`list[X]` / `Sequence[X]` with X an Enum class of the package or a builtin scalar: a fresh list is a full copy"""
+        ann = f_.node.returns
+        if not (isinstance(ann, ast.Subscript) and norm(ann.value) in ("list", "List", "Sequence", "tuple")):
+            return False
+        el = dotted(ann.slice) or ""
+        if el in ("str", "int", "float", "bool"):
+            return True
+        k = p.resolve_class(f_.module, el)
+        return k is not None and any((dotted(b) or "").split(".")[-1] in ("Enum", "IntEnum") for b in k.node.bases)
     # every public property of Study (best_trial, trials, user_attrs, system_attrs, metric_names, ...): enumerated, not listed
     props = sorted(n_ for n_, f_ in study.methods.items() if not n_.startswith("_") and "property" in " ".join(f_.decorators()))
     for must in ("best_trial", "user_attrs", "system_attrs", "trials"):
@@ -357,6 +369,8 @@ def run(ctx):
         ctx.require(rets, f"R20.2: Study.{name} has no return")
         for n in rets:
             lvl = A.Evaluator(pre.get(n, {}), spol).level(n.ast.value)
+            if lvl == SHALLOW and _immutable_elements(f):
+                lvl = CLEAN
             ctx.check(lvl == CLEAN, "R20.2", f.short, "returns-deep-copy",
                       message=f"Study.{name} returns a reference that may be owned by the storage "
                               f"({LEVEL_NAME[lvl]}): `{norm(n.ast.value)[:70]}`",
